@@ -48,7 +48,7 @@ def main():
             p = os.path.join(VERIF, 'seeded', n, 'patch.diff')
             if os.path.exists(p):
                 jobs.append((n, p))
-    with ThreadPoolExecutor(max_workers=8) as ex:
+    with ThreadPoolExecutor(max_workers=14) as ex:
         results = list(ex.map(lambda j: eval_patch(*j), jobs))
     caught = 0
     for name, fired, errors in results:
